@@ -228,6 +228,7 @@ Fixpoint from_slice (cz : codecs) (depth : nat) (validate : bool) (req : Z) (bs 
                    | Some data => from_slice cz d validate req data
                    | None => Err (EIo IoOther)
                    end
+                 else if alloc_limit <=? xerial_max_alloc v then alloc_panic   (* dst.resize(declared length) *)
                  else
                    let* data := xerial_read_to_end v in
                    from_slice cz d validate req data)
@@ -276,8 +277,7 @@ Fixpoint zread_many {A} (d : bytes -> res (A * bytes)) (fuel : nat) (count : Z) 
 
 Definition zread_array {A} (elem_size : Z) (d : bytes -> res (A * bytes)) (bs : bytes) : res (list A * bytes) :=
   let* '(n, r) := zread_array_len bs in
-  if alloc_limit <=? n * elem_size then alloc_panic
-  else zread_many d (S (length r)) n r.
+  zread_many d (S (length r)) n r.
 
 Definition read_topic (cz : codecs) (depth : nat) (validate : bool) (reqs : fetch_tps)
   : bytes -> res (fetch_topic * bytes) := fun bs =>
